@@ -28,7 +28,7 @@ pub fn generate(ctx: &mut Ctx) {
     let mut bi = 0u64;
     let pats = gen::pct_patterns(true);
     for (i, p) in pats.iter().enumerate() {
-        if ctx.tiny() && i % 8 != (ctx.seed % 8) as usize {
+        if ctx.tiny() && i % 32 != (ctx.seed % 32) as usize {
             bi += 1;
             continue;
         }
@@ -58,7 +58,7 @@ pub fn generate(ctx: &mut Ctx) {
             bi += 1;
         }
     }
-    let n = ctx.random_budget(320, 120_000, 1_500_000);
+    let n = ctx.random_budget(96, 120_000, 1_500_000);
     for i in 0..n {
         let mut rng = ctx.rng("c19", i);
         let mut o = gen::Opts::new(rng.chance(1, 2));
